@@ -53,7 +53,11 @@ func monC01() mc.Monitor {
 				continue
 			}
 			if !pn.Schedulable {
-				out = append(out, v("C01", "bind-unschedulable-node", "node", "scheduler bound %s to node %s which was not schedulable", c.Key, c.Node))
+				kind := "normal-ask"
+				if sp := scn.Ask(c.Key); sp != nil && sp.RequiredNode != "" {
+					kind = "required-node-ask"
+				}
+				out = append(out, v("C01", "bind-unschedulable-node", kind, "scheduler bound %s (%s) to node %s which was not schedulable", c.Key, kind, c.Node))
 			}
 			if !c.Res.FitsIn(pn.Available) {
 				out = append(out, v("C01", "bind-does-not-fit", "fit", "scheduler bound %s (%s) to node %s with only %s available (capacity %s allocated %s occupied %s)", c.Key, c.Res, c.Node, pn.Available, pn.Cap, pn.Allocated, pn.Occupied))
